@@ -1,3 +1,5 @@
+mod c01;
+mod c14;
 mod c19;
 mod common;
 
@@ -71,6 +73,207 @@ impl Family for C19Family {
     }
 }
 
+
+pub struct C01Family;
+impl Family for C01Family {
+    fn name(&self) -> &'static str {
+        "tunnel"
+    }
+    fn runs(&self, tier: Tier) -> u64 {
+        if tier == Tier::Quick { 40_000 } else { 2_000_000 }
+    }
+    fn generate(&self, batch_seed: u64, index: u64, tier: Tier) -> (Value, u64) {
+        use c01::*;
+        use common::NetPlan;
+        let seed = simcore::prng::mix(batch_seed, "tunnel", index);
+        let mut r = Prng::new(seed);
+        let r = &mut r;
+        let faulty_udp = r.chance(1, 5);
+        let net = NetPlan {
+            latency_lo: 0,
+            latency_hi: *r.pick(&[0u64, 0, 2, 50]),
+            partial_io: *r.pick(&[0u32, 100, 400]),
+            spurious_pending: *r.pick(&[0u32, 0, 50]),
+            buf_cap: *r.pick(&[1024usize, 65_536, 262_144]),
+            udp_loss: if faulty_udp { 100 } else { 0 },
+            udp_dup: if faulty_udp { 100 } else { 0 },
+            udp_reorder: if faulty_udp { 150 } else { 0 },
+        };
+        let sizes = |r: &mut Prng, big: bool| -> Vec<usize> {
+            if big {
+                return vec![65_536; 96]; // 6 MiB: beyond the production window of 512 frames
+            }
+            let n = r.below(6);
+            (0..n).map(|_| *r.pick(&[0usize, 1, 3, 100, 1000, 4096, 20_000, 65_536])).collect()
+        };
+        let n_tcp = if r.chance(1, 8) { 0 } else { 1 + r.below(6) };
+        let mut tcp: Vec<TcpConn> = vec![];
+        for _ in 0..n_tcp {
+            let big = r.chance(1, if tier == Tier::Quick { 400 } else { 60 });
+            let (client_end, target_mode) = match r.below(20) {
+                0..=9 => (0u8, 0u8),
+                10 | 11 => (0, 1),
+                12 => (2, 1),
+                13 | 14 => (0, 2),
+                15 | 16 => (0, 3),
+                17 | 18 => (1, 4),
+                _ => (1, 0),
+            };
+            let up = sizes(r, big);
+            let mut down = if big && r.chance(1, 2) { vec![] } else { sizes(r, false) };
+            if target_mode == 4 {
+                down = vec![];
+            }
+            let early_k = r.below(up.iter().sum::<usize>() + 1);
+            tcp.push(TcpConn { entry: r.below(8) as u8, start_ms: r.below(300) as u64, up, down, up_gap_ms: *r.pick(&[0u64, 0, 1, 30]), down_gap_ms: *r.pick(&[0u64, 0, 1, 30]), client_end, target_mode, early_k, target_read_delay_ms: if big { 2000 } else { *r.pick(&[0u64, 0, 0, 500]) } });
+        }
+        let n_udp_targets = 1 + r.below(2);
+        let n_udp = if n_tcp == 0 { 1 + r.below(4) } else { r.below(4) };
+        if n_udp > 0 {
+            // datagrams share the WebSocket with the streams: keep stream volume small in runs with
+            // UDP exchanges so that head-of-line blocking cannot push a reply beyond the prune window
+            for c in &mut tcp {
+                for v in [&mut c.up, &mut c.down] {
+                    for x in v.iter_mut() {
+                        *x = (*x).min(1000);
+                    }
+                }
+            }
+        }
+        let udp = (0..n_udp)
+            .map(|_| UdpClient { via_socks: r.chance(1, 2), target: r.below(n_udp_targets), start_ms: r.below(200) as u64, sizes: (0..(1 + r.below(4))).map(|_| *r.pick(&[0usize, 1, 2, 3, 4, 13, 100, 1400, 9000])).collect(), gap_ms: *r.pick(&[0u64, 10, 300, 900]) })
+            .collect();
+        (serde_json::to_value(C01Plan { net, tcp, udp, n_udp_targets }).expect("plan"), seed)
+    }
+    fn exec(&self, plan: &Value, sched: &Sched, _record: bool) -> Outcome {
+        let Ok(plan) = serde_json::from_value::<c01::C01Plan>(plan.clone()) else { return Outcome::default() };
+        c01::run(&plan, sched)
+    }
+    fn rule(&self) -> &'static str {
+        "the real client with a seeded set of remotes (TCP port, Unix socket, SOCKS, HTTP proxy, 1-2 UDP remotes) against the real server and simulated targets; 0-6 concurrent local TCP connections through a random entry point each (fixed TCP/Unix remote, SOCKS4, SOCKS4a, SOCKS5 with IPv4/domain/IPv6 target, HTTP CONNECT) with seeded write chunkings on both ends (0..64 KiB chunks, occasionally 6 MiB against a target that reads late), who half-closes first, abrupt closes, targets that refuse, close early or stay silent; 0-4 concurrent local UDP clients through UDP remotes or SOCKS5 UDP ASSOCIATE with payloads of 0..9000 bytes; simulated network with seeded latency, partial reads/writes, spurious Pending, small socket buffers, and (in a fifth of the runs) UDP loss/duplication/reordering, where the UDP oracle is relaxed to `never misdelivered or corrupted`. Non-trivial: bytes flowed both ways on some TCP connection or a UDP reply arrived."
+    }
+}
+fn c01() -> Check {
+    Check {
+        property: "C01",
+        engine: "syssim",
+        level: "exploration",
+        families: vec![Box::new(C01Family)],
+        required_probes: vec!["entry:TCP-port remote", "entry:Unix-socket remote", "entry:SOCKS4", "entry:SOCKS4a", "entry:SOCKS5/IPv4", "entry:SOCKS5/domain", "entry:SOCKS5/IPv6", "entry:HTTP CONNECT", "client-half-closed-first", "target-half-closed-first", "target-refused-or-closed-early", "client-closed-on-silent-target", "udp-via-socks5", "udp-via-remote", "udp-payload-under-4-bytes", "concurrent-udp-clients"],
+        assumptions: vec!["UDP exchanges stay inside the prune window and below the datagram buffers, so a missing reply cannot be excused in fault-free configurations", "the SOCKS5 UDP reply header is only required to be well-formed per RFC 1928 and to carry the payload (the statement does not fix its address fields)", "TLS not simulated (ws://)"],
+        real: vec!["penguin client: client_main_inner, handle_tcp/udp/socks/http, UDP client-id maps, bridges", "penguin server: run_listener, hyper serve_connection_with_upgrades, State service, handle_websocket, tcp_forwarder_on_channel, udp_forward_on", "tokio-tungstenite both sides", "penguin-mux + penguin-socks + hyper (CONNECT)"],
+        stub: vec!["tokio::net (penguin-simnet)", "local clients (written against RFC 1928 / SOCKS4a / HTTP CONNECT)", "targets", "clock (paused), scheduler RNG (seeded)"],
+    }
+}
+
+
+pub struct C14Family {
+    pub enumerate: bool,
+}
+/// all deviation sets of size <= 2 from the valid request: (factor, value) with factor 0 method, 1 path, 2..=6 headers, 7 psk
+fn c14_deviation_sets() -> Vec<Vec<(usize, u8)>> {
+    let domain: [u8; 8] = [4, 6, 6, 6, 6, 6, 6, 5];
+    let mut singles = vec![];
+    for (f, n) in domain.iter().enumerate() {
+        for v in 1..*n {
+            singles.push((f, v));
+        }
+    }
+    let mut sets = vec![vec![]];
+    for s in &singles {
+        sets.push(vec![*s]);
+    }
+    for (i, a) in singles.iter().enumerate() {
+        for b in &singles[i + 1..] {
+            if a.0 != b.0 {
+                sets.push(vec![*a, *b]);
+            }
+        }
+    }
+    sets
+}
+impl Family for C14Family {
+    fn name(&self) -> &'static str {
+        if self.enumerate { "matrix" } else { "sampled" }
+    }
+    fn runs(&self, tier: Tier) -> u64 {
+        let all = 4 * c14_deviation_sets().len() as u64;
+        match (self.enumerate, tier) {
+            (true, Tier::Quick) => all * 3,
+            (true, Tier::Thorough) => all * 40,
+            (false, Tier::Quick) => 20_000,
+            (false, Tier::Thorough) => 1_000_000,
+        }
+    }
+    fn generate(&self, batch_seed: u64, index: u64, _tier: Tier) -> (Value, u64) {
+        use c14::*;
+        let seed = simcore::prng::mix(batch_seed, self.name(), index);
+        let mut r = Prng::new(seed);
+        let r = &mut r;
+        let mut p = C14Plan { psk_on: false, obfs: false, method: 0, path: 0, hv: [0; 5], psk: 0, frags: vec![], frag_delay_ms: 0, net: common::NetPlan::default(), try_tunnel: true };
+        if self.enumerate {
+            let sets = c14_deviation_sets();
+            let k = index % (4 * sets.len() as u64);
+            let cfg = k / sets.len() as u64;
+            p.psk_on = cfg & 1 == 1;
+            p.obfs = cfg & 2 == 2;
+            for (f, v) in &sets[(k % sets.len() as u64) as usize] {
+                match f {
+                    0 => p.method = *v,
+                    1 => p.path = *v,
+                    7 => p.psk = *v,
+                    h => p.hv[h - 2] = *v,
+                }
+            }
+        } else {
+            p.psk_on = r.chance(1, 2);
+            p.obfs = r.chance(1, 2);
+            p.method = if r.chance(1, 2) { 0 } else { r.below(4) as u8 };
+            p.path = if r.chance(1, 2) { 0 } else { r.below(6) as u8 };
+            for h in &mut p.hv {
+                *h = if r.chance(1, 2) { r.below(2) as u8 } else { r.below(N_HVAR as usize) as u8 };
+            }
+            p.psk = if r.chance(1, 2) { 0 } else { r.below(N_PSK as usize) as u8 };
+        }
+        // fragmentation: split points anywhere, including inside a header name, with virtual delays
+        p.frags = match r.below(5) {
+            0 => vec![],
+            1 => vec![1],
+            2 => vec![7],
+            _ => (0..(1 + r.below(6))).map(|_| 1 + r.below(60)).collect(),
+        };
+        p.frag_delay_ms = *r.pick(&[0u64, 1, 3, 20]);
+        p.net = common::NetPlan { latency_lo: 0, latency_hi: *r.pick(&[0u64, 0, 5]), partial_io: *r.pick(&[0u32, 300]), spurious_pending: *r.pick(&[0u32, 50]), buf_cap: *r.pick(&[256usize, 65_536]), ..Default::default() };
+        (serde_json::to_value(p).expect("plan"), seed)
+    }
+    fn exec(&self, plan: &Value, sched: &Sched, _record: bool) -> Outcome {
+        let Ok(plan) = serde_json::from_value::<c14::C14Plan>(plan.clone()) else { return Outcome::default() };
+        c14::run(&plan, sched)
+    }
+    fn rule(&self) -> &'static str {
+        if self.enumerate {
+            "for each of the four configurations {PSK configured or not} x {obfs on/off}: the valid request and ALL requests deviating from it in at most two of the eight factors (method GET/POST/HEAD/PUT; path /ws, /ws/, /WS, /health, /version, unknown; each of Connection, Upgrade, Sec-WebSocket-Version, Sec-WebSocket-Protocol, Sec-WebSocket-Key exact / case-changed / near-miss / absent / empty / duplicated; X-Penguin-PSK equal / absent / prefix / case-variant / padded) are enumerated by run index; each is sent through real hyper over the simulated network under a seeded fragmentation (split points anywhere, 1-byte fragments included, virtual delays) together with its twin on an unknown path."
+        } else {
+            "higher-order combinations of the same factors, sampled."
+        }
+    }
+    fn exhaustive(&self, _tier: Tier) -> bool {
+        self.enumerate
+    }
+}
+fn c14() -> Check {
+    Check {
+        property: "C14",
+        engine: "syssim",
+        level: "exploration",
+        families: vec![Box::new(C14Family { enumerate: true }), Box::new(C14Family { enumerate: false })],
+        required_probes: vec!["answered-101", "tunnel-started-after-101", "refusal-compared-with-twin", "one-byte-fragments", "obfs-health-or-version"],
+        assumptions: vec!["the decisive dimension is an input/configuration matrix; the simulator contributes the live HTTP connection without which the gate is unreachable, and the fragmentation schedule", "no backend is configured: `same as unknown path` is checked for the configured-404 case only", "cells the statement leaves open (empty Sec-WebSocket-Key, a header sent twice with identical values) may go either way but a refusal must still equal the twin's response", "/health and /version are judged only with obfuscation on"],
+        real: vec!["penguin server: run_listener, hyper auto::Builder serve_connection_with_upgrades, IoWithTimeout, State service (path routing, ws_handler gate, 404 handler), handle_websocket after the upgrade", "tokio-tungstenite + penguin-mux client on the upgraded socket"],
+        stub: vec!["tokio::net (penguin-simnet)", "the HTTP client (raw HTTP/1.1 bytes, fragmented)", "clock, scheduler RNG"],
+    }
+}
+
 fn c19() -> Check {
     Check {
         property: "C19",
@@ -86,6 +289,8 @@ fn c19() -> Check {
 
 fn lookup(id: &str) -> Option<Check> {
     match id {
+        "C01" => Some(c01()),
+        "C14" => Some(c14()),
         "C19" => Some(c19()),
         _ => None,
     }
